@@ -1,7 +1,7 @@
 (* Document: local operations refine the plain JSON value they show (objects; see the end for what is covered). *)
 From Coq Require Import List NArith ZArith Bool Lia Permutation.
 From Orda.Model Require Import Base Time Ops Doc.
-From Orda.Proofs Require Import TimeFacts MapFacts SortFacts DocFacts.
+From Orda.Proofs Require Import TimeFacts OrderFacts MapFacts SortFacts CodecFacts DocFacts.
 Import ListNotations.
 Open Scope N_scope.
 
@@ -247,10 +247,10 @@ Fixpoint set_nth_live (l : list (ts * jt)) (n : nat) (c' : jt) : list (ts * jt) 
                else x :: set_nth_live xs n c'
   end.
 
-(* well-formed tree: object keys are distinct, array sizes count the live elements *)
+(* well-formed tree: object keys are distinct, array sizes count the live elements, elements hold primitive values *)
 Fixpoint wft (j : jt) : Prop :=
   match j with
-  | JE _ _ _ => True
+  | JE _ _ v => match v with VArr _ | VObj _ => False | _ => True end      (* an element holds a primitive value *)
   | JO _ _ m _ => NoDup (map fst m) /\ fold_right (fun kc P => match kc with (_, c) => wft c /\ P end) True m
   | JA _ _ l s => s = Z.of_nat (length (amem l)) /\ fold_right (fun oc P => match oc with (_, c) => wft c /\ P end) True l
   end.
@@ -374,4 +374,1138 @@ Proof.
       unfold alive. cbn [snd]. destruct (jtomb c0) eqn:T0; cbn [negb]; [apply IHl|]. destruct n; [intros [= <-]; exact T0|apply IHl]. }
     destruct (IH ch ch' (wft_arr_child _ _ _ Hch E) Tch Eu) as [V T]. split; [|exact Hl].
     rewrite !jview_arr. rewrite (nth_live_amem _ _ _ E). rewrite (amem_set_nth_live l ch' T _ _ E), V. reflexivity.
+Qed.
+
+(* ---------- NodeMap lookup = path walk ---------- *)
+(* the model's local calls reach their container as Go does, through the table of creation timestamps ([on_node]);
+   where creation timestamps are distinct this is the update at the path the API call named *)
+Lemma ts_eqb_eq a b : ts_eqb a b = true <-> a = b.
+Proof.
+  unfold ts_eqb. destruct a as [e1 l1 c1 d1], b as [e2 l2 c2 d2]; cbn. rewrite !andb_true_iff, !N.eqb_eq. split.
+  - intros [[[-> ->] Hc] ->]. apply str_eqb_eq in Hc. subst. reflexivity.
+  - intros [= -> -> -> ->]. rewrite str_eqb_refl. auto.
+Qed.
+Lemma ts_eqb_refl a : ts_eqb a a = true.
+Proof. apply ts_eqb_eq. reflexivity. Qed.
+
+Section JtInd.
+  Variable P : jt -> Prop.
+  Hypothesis He : forall c d v, P (JE c d v).
+  Hypothesis Ho : forall c d m s, Forall (fun kc => P (snd kc)) m -> P (JO c d m s).
+  Hypothesis Ha : forall c d l s, Forall (fun oc => P (snd oc)) l -> P (JA c d l s).
+  Fixpoint jt_ind' (j : jt) : P j :=
+    match j with
+    | JE c d v => He c d v
+    | JO c d m s => Ho c d m s ((fix go (m : list (str * jt)) : Forall (fun kc => P (snd kc)) m :=
+                                  match m with [] => Forall_nil _ | x :: m' => Forall_cons _ (jt_ind' (snd x)) (go m') end) m)
+    | JA c d l s => Ha c d l s ((fix go (l : list (ts * jt)) : Forall (fun oc => P (snd oc)) l :=
+                                  match l with [] => Forall_nil _ | x :: l' => Forall_cons _ (jt_ind' (snd x)) (go l') end) l)
+    end.
+End JtInd.
+
+Fixpoint on_list {K} (onx : jt -> option jt) (m : list (K * jt)) : option (list (K * jt)) :=
+  match m with
+  | [] => None
+  | (k, x) :: r => match onx x with
+                   | Some x' => Some ((k, x') :: r)
+                   | None => option_map (cons (k, x)) (on_list onx r)
+                   end
+  end.
+Lemma on_node_unfold j p f :
+  on_node j p f = if ts_eqb (jc j) p then f j else
+                  match j with
+                  | JE _ _ _ => None
+                  | JO c d m s => option_map (fun m' => JO c d m' s) (on_list (fun x => on_node x p f) m)
+                  | JA c d l s => option_map (fun l' => JA c d l' s) (on_list (fun x => on_node x p f) l)
+                  end.
+Proof.
+  destruct j as [c d v|c d m s|c d l s]; cbn [on_node jc]; destruct (ts_eqb c p); try reflexivity.
+  - f_equal. induction m as [|[k x] r IH]; [reflexivity|]. cbn [on_list]. destruct (on_node x p f); [reflexivity|]. rewrite IH. reflexivity.
+  - f_equal. induction l as [|[k x] r IH]; [reflexivity|]. cbn [on_list]. destruct (on_node x p f); [reflexivity|]. rewrite IH. reflexivity.
+Qed.
+
+Definition cs_of {K} (m : list (K * jt)) : list ts := flat_map (fun kc => all_cs (snd kc)) m.
+Lemma all_cs_obj c d m s : all_cs (JO c d m s) = c :: cs_of m.
+Proof. cbn [all_cs]. f_equal. unfold cs_of. apply flat_map_ext. intros [k x]. reflexivity. Qed.
+Lemma all_cs_arr c d l s : all_cs (JA c d l s) = c :: cs_of l.
+Proof. cbn [all_cs]. f_equal. unfold cs_of. apply flat_map_ext. intros [k x]. reflexivity. Qed.
+
+Lemma on_list_none {K} onx (m : list (K * jt)) : Forall (fun kc => onx (snd kc) = None) m -> on_list onx m = None.
+Proof. induction 1 as [|[k x] r Hx _ IH]; [reflexivity|]. cbn [on_list]. cbn [snd] in Hx. rewrite Hx, IH. reflexivity. Qed.
+
+Lemma on_node_notin p f j : ~ In p (all_cs j) -> on_node j p f = None.
+Proof.
+  induction j as [c d v|c d m s IH|c d l s IH] using jt_ind'; intros Hn; rewrite on_node_unfold; cbn [jc].
+  - destruct (ts_eqb c p) eqn:E; [|reflexivity]. apply ts_eqb_eq in E. subst. exfalso. apply Hn. left. reflexivity.
+  - rewrite all_cs_obj in Hn. destruct (ts_eqb c p) eqn:E; [apply ts_eqb_eq in E; subst; exfalso; apply Hn; left; reflexivity|].
+    rewrite on_list_none; [reflexivity|]. clear E. unfold cs_of in Hn.
+    induction IH as [|kc r Hx _ IHr]; constructor.
+    + apply Hx. intros Hin. apply Hn. right. cbn [flat_map]. apply in_or_app. left. exact Hin.
+    + apply IHr. intros [H|H]; apply Hn; [left; exact H|right; cbn [flat_map]; apply in_or_app; right; exact H].
+  - rewrite all_cs_arr in Hn. destruct (ts_eqb c p) eqn:E; [apply ts_eqb_eq in E; subst; exfalso; apply Hn; left; reflexivity|].
+    rewrite on_list_none; [reflexivity|]. clear E. unfold cs_of in Hn.
+    induction IH as [|kc r Hx _ IHr]; constructor.
+    + apply Hx. intros Hin. apply Hn. right. cbn [flat_map]. apply in_or_app. left. exact Hin.
+    + apply IHr. intros [H|H]; apply Hn; [left; exact H|right; cbn [flat_map]; apply in_or_app; right; exact H].
+Qed.
+
+Lemma jc_in_all_cs j : In (jc j) (all_cs j).
+Proof. destruct j; cbn; left; reflexivity. Qed.
+
+Lemma alookup_cs m k ch x : alookup str_eqb k m = Some ch -> In x (all_cs ch) -> In x (cs_of m).
+Proof.
+  induction m as [|[k0 c0] m IH]; cbn [alookup]; [discriminate|]. unfold cs_of. cbn [flat_map snd]. destruct (str_eqb k k0).
+  - intros [= ->] H. apply in_or_app. left. exact H.
+  - intros H1 H2. apply in_or_app. right. apply IH; assumption.
+Qed.
+Lemma nth_live_cs l : forall n ch x, nth_live l n = Some ch -> In x (all_cs ch) -> In x (cs_of l).
+Proof.
+  induction l as [|[o c0] l IH]; intros n ch x; cbn [nth_live]; [discriminate|]. unfold cs_of. cbn [flat_map snd].
+  destruct (alive (o, c0)).
+  - destruct n as [|n]; [intros [= ->] H; apply in_or_app; left; exact H|]. intros H1 H2. apply in_or_app. right. eapply IH; eauto.
+  - intros H1 H2. apply in_or_app. right. eapply IH; eauto.
+Qed.
+
+Lemma resolve_in_cs : forall path s j, resolve s path = Some j -> In (jc j) (all_cs s).
+Proof.
+  induction path as [|seg rest IH]; intros s j; cbn [resolve]; [intros [= ->]; apply jc_in_all_cs|].
+  destruct seg as [k|i].
+  - destruct s as [|c d m sz|]; try discriminate. destruct (alookup str_eqb k m) as [ch|] eqn:E; [|discriminate].
+    destruct (jtomb ch); [discriminate|]. intros H. rewrite all_cs_obj. right. eapply alookup_cs; [exact E|]. apply IH. exact H.
+  - destruct s as [| |c d l sz]; try discriminate. destruct ((0 <=? i)%Z && (i <? sz)%Z); [|discriminate].
+    destruct (nth_live l (Z.to_nat i)) as [ch|] eqn:E; [|discriminate]. intros H. rewrite all_cs_arr. right.
+    eapply nth_live_cs; [exact E|]. apply IH. exact H.
+Qed.
+
+Lemma NoDup_app_inv {A} (a b : list A) : NoDup (a ++ b) -> NoDup a /\ NoDup b /\ (forall x, In x a -> ~ In x b).
+Proof.
+  induction a as [|x a IH]; cbn [app]; intros H; [split; [constructor|split; [exact H|intros ? []]]|].
+  inversion H as [|? ? Hn Hd]; subst. destruct (IH Hd) as [Ha [Hb Hdis]]. split; [|split; [exact Hb|]].
+  - constructor; [|exact Ha]. intros Hin. apply Hn. apply in_or_app. left. exact Hin.
+  - intros y [<-|Hy] Hyb; [apply Hn; apply in_or_app; right; exact Hyb|exact (Hdis y Hy Hyb)].
+Qed.
+
+Lemma cs_of_cons {K} (kc : K * jt) m : cs_of (kc :: m) = all_cs (snd kc) ++ cs_of m.
+Proof. reflexivity. Qed.
+
+(* among members whose creation timestamps are pairwise distinct, the table lookup lands in the member the key names *)
+Lemma on_list_obj p f m : forall k ch,
+  NoDup (cs_of m) -> alookup str_eqb k m = Some ch -> In p (all_cs ch) ->
+  on_list (fun x => on_node x p f) m = option_map (fun ch' => aset str_eqb k ch' m) (on_node ch p f).
+Proof.
+  induction m as [|[k0 x] r IH]; intros k ch Hnd; cbn [alookup]; [discriminate|].
+  rewrite cs_of_cons in Hnd. cbn [snd] in Hnd. apply NoDup_app_inv in Hnd. destruct Hnd as [Hx [Hr Hdis]].
+  cbn [on_list aset]. destruct (str_eqb k k0) eqn:E.
+  - apply str_eqb_eq in E. subst k0. intros [= ->] Hin. destruct (on_node ch p f) as [x'|]; [reflexivity|].
+    rewrite on_list_none; [reflexivity|]. apply Forall_forall. intros [k1 y] Hy. cbn [snd]. apply on_node_notin.
+    intros Hp. apply (Hdis p Hin). unfold cs_of. apply in_flat_map. exists (k1, y). auto.
+  - intros Hl Hin. rewrite (on_node_notin p f x).
+    + rewrite (IH k ch Hr Hl Hin). destruct (on_node ch p f); reflexivity.
+    + intros Hp. apply (Hdis p Hp). eapply alookup_cs; eauto.
+Qed.
+
+Lemma on_list_arr p f l : forall n ch,
+  NoDup (cs_of l) -> nth_live l n = Some ch -> In p (all_cs ch) ->
+  on_list (fun x => on_node x p f) l = option_map (fun ch' => set_nth_live l n ch') (on_node ch p f).
+Proof.
+  induction l as [|[o x] r IH]; intros n ch Hnd; cbn [nth_live]; [discriminate|].
+  rewrite cs_of_cons in Hnd. cbn [snd] in Hnd. apply NoDup_app_inv in Hnd. destruct Hnd as [Hx [Hr Hdis]].
+  cbn [on_list set_nth_live].
+  assert (Later : forall n', nth_live r n' = Some ch -> In p (all_cs ch) ->
+            match on_node x p f with
+            | Some x' => Some ((o, x') :: r)
+            | None => option_map (cons (o, x)) (on_list (fun x0 => on_node x0 p f) r)
+            end = option_map (fun ch' => (o, x) :: set_nth_live r n' ch') (on_node ch p f)).
+  { intros n' Hl Hin. rewrite (on_node_notin p f x).
+    - rewrite (IH n' ch Hr Hl Hin). destruct (on_node ch p f); reflexivity.
+    - intros Hp. apply (Hdis p Hp). eapply nth_live_cs; eauto. }
+  destruct (alive (o, x)) eqn:Lx.
+  - destruct n as [|n'].
+    + intros [= ->] Hin. cbn [fst]. destruct (on_node ch p f) as [x'|]; [reflexivity|].
+      rewrite on_list_none; [reflexivity|]. apply Forall_forall. intros [k1 y] Hy. cbn [snd]. apply on_node_notin.
+      intros Hp. apply (Hdis p Hin). unfold cs_of. apply in_flat_map. exists (k1, y). auto.
+    + apply Later.
+  - apply Later.
+Qed.
+
+Theorem on_node_is_path_update f : forall path s j,
+  NoDup (all_cs s) -> resolve s path = Some j -> on_node s (jc j) f = upd_path s path f.
+Proof.
+  induction path as [|seg rest IH]; intros s j Hnd; cbn [resolve upd_path].
+  - intros [= ->]. rewrite on_node_unfold, ts_eqb_refl. reflexivity.
+  - destruct seg as [k|i].
+    + destruct s as [|c d m sz|]; try discriminate. destruct (alookup str_eqb k m) as [ch|] eqn:E; [|discriminate].
+      destruct (jtomb ch) eqn:T; [discriminate|]. intros Hres. rewrite all_cs_obj in Hnd. inversion Hnd as [|? ? Hc Hm]; subst.
+      pose proof (resolve_in_cs _ _ _ Hres) as Hin.
+      rewrite on_node_unfold. cbn [jc]. destruct (ts_eqb c (jc j)) eqn:Ec.
+      { apply ts_eqb_eq in Ec. exfalso. apply Hc. rewrite Ec. eapply alookup_cs; eauto. }
+      rewrite (on_list_obj _ _ _ _ _ Hm E Hin).
+      assert (Hch : NoDup (all_cs ch)).
+      { clear -Hm E. revert E. induction m as [|[k0 x] r IHm]; cbn [alookup]; [discriminate|]. rewrite cs_of_cons in Hm. cbn [snd] in Hm.
+        apply NoDup_app_inv in Hm. destruct Hm as [Hx [Hr _]]. destruct (str_eqb k k0); [intros [= <-]; exact Hx|apply IHm, Hr]. }
+      rewrite (IH ch j Hch Hres). destruct (upd_path ch rest f); reflexivity.
+    + destruct s as [| |c d l sz]; try discriminate. destruct ((0 <=? i)%Z && (i <? sz)%Z); [|discriminate].
+      destruct (nth_live l (Z.to_nat i)) as [ch|] eqn:E; [|discriminate]. intros Hres. rewrite all_cs_arr in Hnd. inversion Hnd as [|? ? Hc Hm]; subst.
+      pose proof (resolve_in_cs _ _ _ Hres) as Hin.
+      rewrite on_node_unfold. cbn [jc]. destruct (ts_eqb c (jc j)) eqn:Ec.
+      { apply ts_eqb_eq in Ec. exfalso. apply Hc. rewrite Ec. eapply nth_live_cs; eauto. }
+      rewrite (on_list_arr _ _ _ _ _ Hm E Hin).
+      assert (Hch : NoDup (all_cs ch)).
+      { clear -Hm E. revert E. generalize (Z.to_nat i). induction l as [|[o x] r IHl]; intros n; cbn [nth_live]; [discriminate|]. rewrite cs_of_cons in Hm. cbn [snd] in Hm.
+        apply NoDup_app_inv in Hm. destruct Hm as [Hx [Hr _]]. destruct (alive (o, x)); [destruct n; [intros [= <-]; exact Hx|apply IHl, Hr]|apply IHl, Hr]. }
+      rewrite (IH ch j Hch Hres). destruct (upd_path ch rest f); reflexivity.
+Qed.
+
+(* ---------- the update at a path: readable value and well-formedness, judged at the container it reaches ---------- *)
+Definition Wm (m : list (str * jt)) : Prop := fold_right (fun kc P => match kc with (_, c) => wft c /\ P end) True m.
+Definition Wl (l : list (ts * jt)) : Prop := fold_right (fun oc P => match oc with (_, c) => wft c /\ P end) True l.
+Lemma Wm_aset m k ch' : Wm m -> wft ch' -> Wm (aset str_eqb k ch' m).
+Proof.
+  induction m as [|[k0 c] m IH]; cbn [aset Wm fold_right]; [intros _ H; split; [exact H|exact I]|].
+  intros [H1 H2] H. destruct (str_eqb k k0); cbn [fold_right]; [split; assumption|split; [exact H1|apply IH; assumption]].
+Qed.
+Lemma Wl_set_nth l ch' : wft ch' -> forall n, Wl l -> Wl (set_nth_live l n ch').
+Proof.
+  intros H. induction l as [|[o c] l IH]; intros n; cbn [set_nth_live Wl fold_right]; [auto|].
+  intros [H1 H2]. destruct (alive (o, c)); [destruct n|]; cbn [fold_right fst]; split; auto; apply IH; exact H2.
+Qed.
+Lemma vset_nth_length l v : forall n, length (vset_nth l n v) = length l.
+Proof. induction l as [|x l IH]; intros n; [destruct n; reflexivity|]. destruct n; cbn; [reflexivity|f_equal; apply IH]. Qed.
+Lemma nth_live_not_tomb l : forall n ch, nth_live l n = Some ch -> jtomb ch = false.
+Proof.
+  induction l as [|[o c0] l IHl]; intros n ch; cbn [nth_live]; [discriminate|].
+  unfold alive. cbn [snd]. destruct (jtomb c0) eqn:T0; cbn [negb]; [apply IHl|]. destruct n; [intros [= <-]; exact T0|apply IHl].
+Qed.
+
+Theorem upd_path_at (f : jt -> option jt) (fv : val -> val) : forall path j j' tg,
+  wft j -> jtomb j = false -> resolve j path = Some tg ->
+  (wft tg -> jtomb tg = false -> forall x', f tg = Some x' -> jview x' = fv (jview tg) /\ jtomb x' = false /\ wft x') ->
+  upd_path j path f = Some j' ->
+  jview j' = vupd (jview j) path fv /\ jtomb j' = false /\ wft j'.
+Proof.
+  induction path as [|seg rest IH]; intros j j' tg Hw Hl; cbn [upd_path vupd resolve].
+  - intros [= <-] Hf H. apply Hf; assumption.
+  - destruct seg as [k|i].
+    + destruct j as [| c d m s |]; try discriminate. destruct Hw as [Hnd Hch].
+      destruct (alookup str_eqb k m) as [ch|] eqn:E; [|discriminate]. destruct (jtomb ch) eqn:Tch; [discriminate|].
+      intros Hres Hf. destruct (upd_path ch rest f) as [ch'|] eqn:Eu; [|discriminate]. intros [= <-].
+      destruct (IH ch ch' tg (wft_obj_child _ _ _ Hch E) Tch Hres Hf Eu) as [V [T W]]. split; [|split; [exact Hl|]].
+      * rewrite (obj_set_view c d m s k ch' Hnd T (alookup_some_in _ _ _ E)). rewrite jview_obj.
+        assert (L : alookup str_eqb k (sort_by_key (omem m)) = Some (jview ch)).
+        { rewrite <- (alookup_perm (omem m) (sort_by_key (omem m)) k (omem_nodup _ Hnd) (sort_perm _)). apply alookup_omem; assumption. }
+        cbn [vupd]. rewrite L, V. reflexivity.
+      * split; [apply aset_nodup, Hnd|apply Wm_aset; assumption].
+    + destruct j as [| | c d l s]; try discriminate. destruct Hw as [Hs Hch].
+      destruct ((0 <=? i)%Z && (i <? s)%Z); [|discriminate]. destruct (nth_live l (Z.to_nat i)) as [ch|] eqn:E; [|discriminate].
+      intros Hres Hf. destruct (upd_path ch rest f) as [ch'|] eqn:Eu; [|discriminate]. intros [= <-].
+      pose proof (nth_live_not_tomb _ _ _ E) as Tch.
+      destruct (IH ch ch' tg (wft_arr_child _ _ _ Hch E) Tch Hres Hf Eu) as [V [T W]]. split; [|split; [exact Hl|]].
+      * rewrite !jview_arr. rewrite (nth_live_amem _ _ _ E). rewrite (amem_set_nth_live l ch' T _ _ E), V. reflexivity.
+      * split; [|apply Wl_set_nth; assumption]. rewrite (amem_set_nth_live l ch' T _ _ E), vset_nth_length. exact Hs.
+Qed.
+
+(* the container a path reaches is itself well-formed and not deleted *)
+Lemma resolve_wft : forall path j tg, wft j -> jtomb j = false -> resolve j path = Some tg -> wft tg /\ jtomb tg = false.
+Proof.
+  induction path as [|seg rest IH]; intros j tg Hw Hl; cbn [resolve]; [intros [= <-]; auto|].
+  destruct seg as [k|i].
+  - destruct j as [| c d m s |]; try discriminate. destruct Hw as [Hnd Hch].
+    destruct (alookup str_eqb k m) as [ch|] eqn:E; [|discriminate]. destruct (jtomb ch) eqn:Tch; [discriminate|].
+    apply IH; [exact (wft_obj_child _ _ _ Hch E)|exact Tch].
+  - destruct j as [| | c d l s]; try discriminate. destruct Hw as [Hs Hch].
+    destruct ((0 <=? i)%Z && (i <? s)%Z); [|discriminate]. destruct (nth_live l (Z.to_nat i)) as [ch|] eqn:E; [|discriminate].
+    apply IH; [exact (wft_arr_child _ _ _ Hch E)|exact (nth_live_not_tomb _ _ _ E)].
+Qed.
+
+(* ---------- every node of the tree with its creation and deletion time; an update at a path changes only the part
+   under the container it reaches ---------- *)
+Fixpoint nodes (j : jt) : list (ts * option ts) :=
+  match j with
+  | JE c d _ => [(c, d)]
+  | JO c d m _ => (c, d) :: flat_map (fun kc => match kc with (_, x) => nodes x end) m
+  | JA c d l _ => (c, d) :: flat_map (fun oc => match oc with (_, x) => nodes x end) l
+  end.
+Definition nodes_of {K} (m : list (K * jt)) : list (ts * option ts) := flat_map (fun kc => nodes (snd kc)) m.
+Lemma nodes_obj c d m s : nodes (JO c d m s) = (c, d) :: nodes_of m.
+Proof. cbn [nodes]. f_equal. apply flat_map_ext. intros [k x]. reflexivity. Qed.
+Lemma nodes_arr c d l s : nodes (JA c d l s) = (c, d) :: nodes_of l.
+Proof. cbn [nodes]. f_equal. apply flat_map_ext. intros [k x]. reflexivity. Qed.
+Lemma nodes_of_app {K} (a b : list (K * jt)) : nodes_of (a ++ b) = nodes_of a ++ nodes_of b.
+Proof. apply flat_map_app. Qed.
+Lemma nodes_of_cons {K} (kc : K * jt) m : nodes_of (kc :: m) = nodes (snd kc) ++ nodes_of m.
+Proof. reflexivity. Qed.
+
+Lemma map_flat_map {A B C} (g : B -> C) (f : A -> list B) l : map g (flat_map f l) = flat_map (fun a => map g (f a)) l.
+Proof. induction l as [|a l IH]; [reflexivity|]. cbn. rewrite map_app, IH. reflexivity. Qed.
+
+Lemma all_cs_nodes j : all_cs j = map fst (nodes j).
+Proof.
+  induction j as [c d v|c d m s IH|c d l s IH] using jt_ind'; [reflexivity| |].
+  - rewrite all_cs_obj, nodes_obj. cbn [map fst]. f_equal. unfold cs_of, nodes_of. rewrite map_flat_map.
+    induction IH as [|kc r Hx _ IHr]; [reflexivity|]. cbn [flat_map]. rewrite Hx, IHr. reflexivity.
+  - rewrite all_cs_arr, nodes_arr. cbn [map fst]. f_equal. unfold cs_of, nodes_of. rewrite map_flat_map.
+    induction IH as [|kc r Hx _ IHr]; [reflexivity|]. cbn [flat_map]. rewrite Hx, IHr. reflexivity.
+Qed.
+
+Lemma alookup_split (m : list (str * jt)) k ch : alookup str_eqb k m = Some ch ->
+  exists m1 m2, m = m1 ++ (k, ch) :: m2 /\ forall ch', aset str_eqb k ch' m = m1 ++ (k, ch') :: m2.
+Proof.
+  induction m as [|[k0 c0] m IH]; cbn [alookup]; [discriminate|]. destruct (str_eqb k k0) eqn:E.
+  - apply str_eqb_eq in E. subst k0. intros [= ->]. exists [], m. split; [reflexivity|]. intros ch'. cbn [aset]. rewrite str_eqb_refl. reflexivity.
+  - intros H. destruct (IH H) as [m1 [m2 [E1 E2]]]. exists ((k0, c0) :: m1), m2. split; [rewrite E1; reflexivity|].
+    intros ch'. cbn [aset]. rewrite E, E2. reflexivity.
+Qed.
+Lemma nth_live_split l : forall n ch, nth_live l n = Some ch ->
+  exists l1 o l2, l = l1 ++ (o, ch) :: l2 /\ forall ch', set_nth_live l n ch' = l1 ++ (o, ch') :: l2.
+Proof.
+  induction l as [|[o c0] l IH]; intros n ch; cbn [nth_live]; [discriminate|].
+  assert (Later : forall n', nth_live l n' = Some ch ->
+            exists l1 o1 l2, (o, c0) :: l = l1 ++ (o1, ch) :: l2 /\ forall ch', (o, c0) :: set_nth_live l n' ch' = l1 ++ (o1, ch') :: l2).
+  { intros n' H. destruct (IH n' ch H) as [l1 [o1 [l2 [E1 E2]]]]. exists ((o, c0) :: l1), o1, l2. split; [rewrite E1; reflexivity|].
+    intros ch'. rewrite E2. reflexivity. }
+  cbn [set_nth_live]. destruct (alive (o, c0)).
+  - destruct n as [|n'].
+    + intros [= ->]. exists [], o, l. split; [reflexivity|]. intros ch'. reflexivity.
+    + apply Later.
+  - apply Later.
+Qed.
+
+Lemma perm_ctx {A} (h : A) p q a t r : Permutation a (t ++ r) -> Permutation (h :: p ++ a ++ q) (t ++ h :: p ++ r ++ q).
+Proof.
+  intros H. eapply Permutation_trans; [|apply Permutation_middle]. apply perm_skip.
+  eapply Permutation_trans; [apply Permutation_app_head, Permutation_app_tail, H|].
+  rewrite <- app_assoc. rewrite !app_assoc. apply Permutation_app_tail. rewrite <- !app_assoc.
+  eapply Permutation_trans; [apply Permutation_app_swap_app|]. reflexivity.
+Qed.
+
+Theorem upd_path_nodes f : forall path j j' tg,
+  resolve j path = Some tg -> upd_path j path f = Some j' ->
+  exists x' rest, f tg = Some x' /\ Permutation (nodes j) (nodes tg ++ rest) /\ Permutation (nodes j') (nodes x' ++ rest).
+Proof.
+  induction path as [|seg rest IH]; intros j j' tg; cbn [resolve upd_path].
+  - intros [= <-] H. exists j', []. rewrite !app_nil_r. auto.
+  - destruct seg as [k|i].
+    + destruct j as [| c d m s |]; try discriminate.
+      destruct (alookup str_eqb k m) as [ch|] eqn:E; [|discriminate]. destruct (jtomb ch); [discriminate|].
+      intros Hres. destruct (upd_path ch rest f) as [ch'|] eqn:Eu; [|discriminate]. intros [= <-].
+      destruct (IH ch ch' tg Hres Eu) as [x' [r0 [Hf [P1 P2]]]].
+      destruct (alookup_split _ _ _ E) as [m1 [m2 [E1 E2]]].
+      exists x', ((c, d) :: nodes_of m1 ++ r0 ++ nodes_of m2). split; [exact Hf|].
+      rewrite !nodes_obj, (E2 ch'), E1, !nodes_of_app, !nodes_of_cons. cbn [snd]. split; apply perm_ctx; assumption.
+    + destruct j as [| | c d l s]; try discriminate. destruct ((0 <=? i)%Z && (i <? s)%Z); [|discriminate].
+      destruct (nth_live l (Z.to_nat i)) as [ch|] eqn:E; [|discriminate].
+      intros Hres. destruct (upd_path ch rest f) as [ch'|] eqn:Eu; [|discriminate]. intros [= <-].
+      destruct (IH ch ch' tg Hres Eu) as [x' [r0 [Hf [P1 P2]]]].
+      destruct (nth_live_split _ _ _ E) as [l1 [o [l2 [E1 E2]]]].
+      exists x', ((c, d) :: nodes_of l1 ++ r0 ++ nodes_of l2). split; [exact Hf|].
+      rewrite !nodes_arr, (E2 ch'), E1, !nodes_of_app, !nodes_of_cons. cbn [snd]. split; apply perm_ctx; assumption.
+Qed.
+
+(* ---------- the tree created for a value: every node is new (the operation's timestamp, not deleted), well-formed ---------- *)
+Lemma carr_shape t vs : forall i,
+  Forall (fun oc => exists x ix, In x vs /\ snd oc = fst (create t x ix)) (fst (carr t vs i)) /\ length (fst (carr t vs i)) = length vs.
+Proof.
+  induction vs as [|x xs IH]; intros i; cbn [carr]; [split; [constructor|reflexivity]|].
+  destruct (create t x i) as [j i1] eqn:E. destruct (IH i1) as [H1 H2]. destruct (carr t xs i1) as [r i2]. cbn [fst] in *. split.
+  - constructor; [exists x, i; split; [left; reflexivity|rewrite E; reflexivity]|].
+    eapply Forall_impl; [|exact H1]. intros oc [y [iy [Hy Ey]]]. exists y, iy. split; [right; exact Hy|exact Ey].
+  - cbn [length]. rewrite H2. reflexivity.
+Qed.
+Lemma cobj_shape t kvs : forall i,
+  Forall (fun kc => exists x ix, In x (map snd kvs) /\ snd kc = fst (create t x ix)) (fst (cobj t kvs i)) /\
+  map fst (fst (cobj t kvs i)) = map fst kvs.
+Proof.
+  induction kvs as [|[k x] xs IH]; intros i; cbn [cobj]; [split; [constructor|reflexivity]|].
+  destruct (create t x i) as [j i1] eqn:E. destruct (IH i1) as [H1 H2]. destruct (cobj t xs i1) as [r i2]. cbn [fst] in *. split.
+  - constructor; [exists x, i; split; [left; reflexivity|rewrite E; reflexivity]|].
+    eapply Forall_impl; [|exact H1]. intros oc [y [iy [Hy Ey]]]. exists y, iy. split; [right; exact Hy|exact Ey].
+  - cbn [map fst]. rewrite H2. reflexivity.
+Qed.
+
+Definition newnode (t : ts) (n : ts * option ts) : Prop := snd n = None /\ exists k, fst n = ts_at t k.
+Lemma create_clean t v : forall i, Forall (newnode t) (nodes (fst (create t v i))).
+Proof.
+  induction v as [z|s|b|vs IH|kvs IH] using val_ind'; intros i;
+    try (cbn; constructor; [split; [reflexivity|eexists; reflexivity]|constructor]).
+  - rewrite create_arr. destruct (carr_shape t vs (i + 1)) as [Hs _]. destruct (carr t vs (i + 1)) as [l i']. cbn [fst] in *.
+    rewrite nodes_arr. constructor; [split; [reflexivity|eexists; reflexivity]|].
+    unfold nodes_of. apply Forall_forall. intros n Hn. apply in_flat_map in Hn. destruct Hn as [oc [Hoc Hn]].
+    rewrite Forall_forall in Hs. destruct (Hs oc Hoc) as [x [ix [Hx Ex]]]. rewrite Ex in Hn.
+    rewrite Forall_forall in IH. exact (proj1 (Forall_forall _ _) (IH x Hx ix) n Hn).
+  - rewrite create_obj. destruct (cobj_shape t kvs (i + 1)) as [Hs _]. destruct (cobj t kvs (i + 1)) as [m i']. cbn [fst] in *.
+    rewrite nodes_obj. constructor; [split; [reflexivity|eexists; reflexivity]|].
+    unfold nodes_of. apply Forall_forall. intros n Hn. apply in_flat_map in Hn. destruct Hn as [kc [Hkc Hn]].
+    rewrite Forall_forall in Hs. destruct (Hs kc Hkc) as [x [ix [Hx Ex]]]. rewrite Ex in Hn.
+    apply in_map_iff in Hx. destruct Hx as [kv [Ekv Hkv]]. rewrite Forall_forall in IH. specialize (IH kv Hkv). rewrite Ekv in IH.
+    exact (proj1 (Forall_forall _ _) (IH ix) n Hn).
+Qed.
+
+Lemma amem_all_live l : Forall (fun oc => jtomb (snd oc) = false) l -> length (amem l) = length l.
+Proof.
+  induction 1 as [|[o c] l Hx _ IH]; [reflexivity|]. cbn [snd] in Hx. unfold amem. cbn [flat_map]. rewrite Hx. cbn [app length].
+  f_equal. exact IH.
+Qed.
+
+Lemma create_wft t v : canon v -> forall i, wft (fst (create t v i)).
+Proof.
+  induction v as [z|s|b|vs IH|kvs IH] using val_ind'; intros Hc i; try exact I.
+  - inversion Hc as [| | |? Hvs|]; subst. rewrite create_arr. destruct (carr_shape t vs (i + 1)) as [Hs _].
+    destruct (carr t vs (i + 1)) as [l i']. cbn [fst] in *. cbn [wft]. split.
+    + rewrite amem_all_live; [reflexivity|]. eapply Forall_impl; [|exact Hs]. intros oc [x [ix [_ Ex]]]. rewrite Ex. apply create_not_tomb.
+    + change (Wl l). clear -Hs IH Hvs. induction Hs as [|[o c] r [x [ix [Hx Ex]]] _ IHr]; [exact I|]. cbn [Wl fold_right]. split; [|exact IHr].
+      cbn [snd] in Ex. rewrite Ex. rewrite Forall_forall in IH, Hvs. apply IH; auto.
+  - inversion Hc as [| | | |? Hso Hkvs]; subst. rewrite create_obj. destruct (cobj_shape t kvs (i + 1)) as [Hs Hk].
+    destruct (cobj t kvs (i + 1)) as [m i']. cbn [fst] in *. cbn [wft]. split.
+    + rewrite Hk. apply ksorted_nodup, Hso.
+    + change (Wm m). clear -Hs IH Hkvs. induction Hs as [|[k c] r [x [ix [Hx Ex]]] _ IHr]; [exact I|]. cbn [Wm fold_right]. split; [|exact IHr].
+      cbn [snd] in Ex. rewrite Ex. apply in_map_iff in Hx. destruct Hx as [kv [Ekv Hkv]]. rewrite Forall_forall in IH, Hkvs.
+      rewrite <- Ekv. apply IH; auto.
+Qed.
+
+(* ---------- what a local array call does to the stored list: elements are kept, marked deleted at the operation's
+   time, replaced by a new tree, or new trees are inserted — the new trees used in order, each once ---------- *)
+Inductive ledit (t : ts) : list (ts * jt) -> list jt -> list (ts * jt) -> Prop :=
+| LE_nil : ledit t [] [] []
+| LE_keep x l ns l' : ledit t l ns l' -> ledit t (x :: l) ns (x :: l')
+| LE_kill x k l ns l' : ledit t l ns l' -> ledit t (x :: l) ns ((fst x, set_d (snd x) (ts_at t k)) :: l')
+| LE_repl x n l ns l' : ledit t l ns l' -> ledit t (x :: l) (n :: ns) ((fst x, n) :: l')
+| LE_ins o n l ns l' : ledit t l ns l' -> ledit t l (n :: ns) ((o, n) :: l').
+
+Lemma ledit_refl t l : ledit t l [] l.
+Proof. induction l; constructor; assumption. Qed.
+
+Lemma wft_set_d x d : wft x -> wft (set_d x d).
+Proof. destruct x; cbn; auto. Qed.
+Lemma nodes_set_d x d : nodes (set_d x d) = (jc x, Some d) :: tl (nodes x).
+Proof. destruct x; reflexivity. Qed.
+Lemma nodes_head x : nodes x = (jc x, jd x) :: tl (nodes x).
+Proof. destruct x; reflexivity. Qed.
+Lemma all_cs_set_d x d : all_cs (set_d x d) = all_cs x.
+Proof. destruct x; reflexivity. Qed.
+
+Lemma ledit_wl t l ns l' : ledit t l ns l' -> Wl l -> Forall wft ns -> Wl l'.
+Proof.
+  induction 1 as [|[o x] l ns l' _ IH|[o x] k l ns l' _ IH|[o x] n l ns l' _ IH|o n l ns l' _ IH]; intros Hl Hn.
+  - exact I.
+  - destruct Hl as [Hx Hl]. split; [exact Hx|exact (IH Hl Hn)].
+  - destruct Hl as [Hx Hl]. split; [apply wft_set_d; exact Hx|exact (IH Hl Hn)].
+  - destruct Hl as [Hx Hl]. inversion Hn as [|? ? Hn1 Hn2]; subst. split; [exact Hn1|exact (IH Hl Hn2)].
+  - inversion Hn as [|? ? Hn1 Hn2]; subst. split; [exact Hn1|exact (IH Hl Hn2)].
+Qed.
+
+Lemma ledit_cs t l ns l' : ledit t l ns l' ->
+  exists dropped, Permutation (cs_of l ++ flat_map all_cs ns) (cs_of l' ++ dropped).
+Proof.
+  induction 1 as [|[o x] l ns l' _ IH|[o x] k l ns l' _ IH|[o x] n l ns l' _ IH|o n l ns l' _ IH].
+  - exists []. reflexivity.
+  - destruct IH as [dr P]. exists dr. rewrite !cs_of_cons. cbn [snd]. rewrite <- !app_assoc. apply Permutation_app_head. exact P.
+  - destruct IH as [dr P]. exists dr. rewrite !cs_of_cons. cbn [snd]. rewrite all_cs_set_d, <- !app_assoc. apply Permutation_app_head. exact P.
+  - destruct IH as [dr P]. exists (all_cs x ++ dr). rewrite !cs_of_cons. cbn [snd flat_map]. rewrite <- !app_assoc.
+    (* cs x ++ cs l ++ cs n ++ F ns  ~  cs n ++ cs l' ++ cs x ++ dr *)
+    eapply Permutation_trans; [apply Permutation_app_head, Permutation_app_swap_app|].
+    eapply Permutation_trans; [apply Permutation_app_swap_app|]. apply Permutation_app_head.
+    eapply Permutation_trans; [apply Permutation_app_head, P|].
+    eapply Permutation_trans; [apply Permutation_app_swap_app|]. apply Permutation_app_head. reflexivity.
+  - destruct IH as [dr P]. exists dr. rewrite !cs_of_cons. cbn [snd flat_map]. rewrite <- !app_assoc.
+    eapply Permutation_trans; [apply Permutation_app_swap_app|]. apply Permutation_app_head. exact P.
+Qed.
+
+Lemma ledit_nodes t (P : ts * option ts -> Prop) l ns l' : ledit t l ns l' ->
+  (forall c d k, P (c, d) -> P (c, Some (ts_at t k))) ->
+  Forall P (nodes_of l) -> Forall P (flat_map nodes ns) -> Forall P (nodes_of l').
+Proof.
+  intros H Hk. induction H as [|[o x] l ns l' _ IH|[o x] k l ns l' _ IH|[o x] n l ns l' _ IH|o n l ns l' _ IH]; intros Hl Hn.
+  - constructor.
+  - rewrite nodes_of_cons in *. cbn [snd] in *. apply Forall_app in Hl. destruct Hl. apply Forall_app. split; auto.
+  - rewrite nodes_of_cons in *. cbn [snd] in *. apply Forall_app in Hl. destruct Hl as [Hx Hl]. apply Forall_app. split; [|auto].
+    rewrite nodes_set_d. rewrite (nodes_head x) in Hx. inversion Hx; subst. constructor; [eapply Hk; eauto|assumption].
+  - rewrite nodes_of_cons in *. cbn [snd flat_map] in *. apply Forall_app in Hl. destruct Hl. apply Forall_app in Hn. destruct Hn.
+    apply Forall_app. split; auto.
+  - rewrite nodes_of_cons. cbn [snd flat_map] in *. apply Forall_app in Hn. destruct Hn. apply Forall_app. split; auto.
+Qed.
+
+Lemma ains_local_ledit t ns : forall l pos l' tg,
+  ains_local l pos (map (fun n => (jtime n, n)) ns) = Some (l', tg) -> ledit t l ns l'.
+Proof.
+  assert (Front : forall l, ledit t l ns (map (fun n => (jtime n, n)) ns ++ l)).
+  { intros l. induction ns as [|n ns IH]; cbn [map app]; [apply ledit_refl|]. constructor. exact IH. }
+  induction l as [|x l IH]; intros pos l' tg.
+  - destruct pos; cbn [ains_local]; [|discriminate]. intros [= <- _]. apply Front.
+  - destruct pos as [|p]; cbn [ains_local]; [intros [= <- _]; apply Front|].
+    destruct (alive x).
+    + destruct p as [|p'].
+      * intros [= <- _]. constructor. apply Front.
+      * destruct (ains_local l (S p') _) as [[l0 t0]|] eqn:E; [|discriminate]. intros [= <- _]. constructor. eapply IH; eauto.
+    + destruct (ains_local l (S p) _) as [[l0 t0]|] eqn:E; [|discriminate]. intros [= <- _]. constructor. eapply IH; eauto.
+Qed.
+
+Lemma adel_local_ledit t : forall l pos num i l' tgs,
+  adel_local l pos num t i = Some (l', tgs) -> ledit t l [] l'.
+Proof.
+  induction l as [|x l IH]; intros pos num i l' tgs; destruct num as [|num']; cbn [adel_local]; try discriminate;
+    try (intros [= <- _]; apply ledit_refl).
+  destruct (alive x).
+  - destruct pos as [|pos'].
+    + destruct (adel_local l 0 num' t (i + 1)) as [[l0 t0]|] eqn:E; [|discriminate]. intros [= <- _]. constructor. eapply IH; eauto.
+    + destruct (adel_local l pos' (S num') t i) as [[l0 t0]|] eqn:E; [|discriminate]. intros [= <- _]. constructor. eapply IH; eauto.
+  - destruct (adel_local l pos (S num') t i) as [[l0 t0]|] eqn:E; [|discriminate]. intros [= <- _]. constructor. eapply IH; eauto.
+Qed.
+
+Lemma aupd_local_ledit t : forall l pos vs i l' tgs,
+  aupd_local l pos vs t i = Some (l', tgs) -> ledit t l (fst (create_many t vs i)) l'.
+Proof.
+  induction l as [|x l IH]; intros pos vs i l' tgs; destruct vs as [|v vs']; cbn [aupd_local create_many]; try discriminate;
+    try (intros [= <- _]; apply ledit_refl).
+  destruct (alive x).
+  - destruct pos as [|pos'].
+    + destruct (create t v i) as [n i1] eqn:Ec. destruct (aupd_local l 0 vs' t i1) as [[l0 t0]|] eqn:E; [|discriminate].
+      intros [= <- _]. specialize (IH _ _ _ _ _ E). destruct (create_many t vs' i1) as [r i2]. cbn [fst] in *. constructor. exact IH.
+    + destruct (aupd_local l pos' (v :: vs') t i) as [[l0 t0]|] eqn:E; [|discriminate]. intros [= <- _]. constructor.
+      specialize (IH _ _ _ _ _ E). cbn [create_many] in IH. exact IH.
+  - destruct (aupd_local l pos (v :: vs') t i) as [[l0 t0]|] eqn:E; [|discriminate]. intros [= <- _]. constructor.
+    specialize (IH _ _ _ _ _ E). cbn [create_many] in IH. exact IH.
+Qed.
+
+(* ---------- several values created by one operation ---------- *)
+Lemma create_many_ids t vs : forall i, exists n, flat_map all_cs (fst (create_many t vs i)) = map (ts_at t) (nrange i n).
+Proof.
+  induction vs as [|x xs IH]; intros i; cbn [create_many]; [exists 0%nat; reflexivity|].
+  pose proof (create_ids t x i) as Hx. destruct (create t x i) as [j i1]. destruct Hx as [E1 E2].
+  destruct (IH i1) as [n' En]. destruct (create_many t xs i1) as [r i2]. cbn [fst flat_map] in *.
+  exists (vcount x + n')%nat. rewrite E2, En, nrange_app, map_app. subst i1. reflexivity.
+Qed.
+Lemma map_ts_at_nodup t l : NoDup l -> NoDup (map (ts_at t) l).
+Proof.
+  induction l as [|a l IH]; cbn; intros H; [constructor|]. inversion H as [|? ? Hn Hd]; subst. constructor; [|apply IH, Hd].
+  intros Hin. apply in_map_iff in Hin. destruct Hin as [b [E Hb]]. apply ts_at_inj in E. subst b. contradiction.
+Qed.
+Lemma create_many_shape t vs : forall i,
+  Forall (fun n => exists x ix, In x vs /\ n = fst (create t x ix)) (fst (create_many t vs i)) /\
+  length (fst (create_many t vs i)) = length vs.
+Proof.
+  induction vs as [|x xs IH]; intros i; cbn [create_many]; [split; [constructor|reflexivity]|].
+  destruct (create t x i) as [j i1] eqn:E. destruct (IH i1) as [H1 H2]. destruct (create_many t xs i1) as [r i2]. cbn [fst] in *. split.
+  - constructor; [exists x, i; split; [left; reflexivity|rewrite E; reflexivity]|].
+    eapply Forall_impl; [|exact H1]. intros n [y [iy [Hy Ey]]]. exists y, iy. split; [right; exact Hy|exact Ey].
+  - cbn [length]. rewrite H2. reflexivity.
+Qed.
+Lemma create_many_view t vs : Forall canon vs -> forall i,
+  amem (map (fun n => (jtime n, n)) (fst (create_many t vs i))) = vs.
+Proof.
+  induction 1 as [|x xs Cx _ IH]; intros i; cbn [create_many]; [reflexivity|].
+  pose proof (create_view t x Cx i) as Ex. pose proof (create_not_tomb t x i) as Tx. destruct (create t x i) as [j i1]. cbn [fst] in Ex, Tx.
+  specialize (IH i1). destruct (create_many t xs i1) as [r i2]. cbn [fst map] in *.
+  rewrite amem_cons_live by (unfold alive; cbn [snd]; rewrite Tx; reflexivity). cbn [snd]. rewrite Ex, IH. reflexivity.
+Qed.
+
+(* ---------- the invariant of a document replica and how a local change at one container carries to the tree ---------- *)
+Definition older (t x : ts) : Prop := ts_bounded x /\ klt (key_of x) (key_of t) = true.
+Definition below (t : ts) (n : ts * option ts) : Prop :=
+  older t (fst n) /\ match snd n with Some d => older t d | None => True end.
+Definition upto (t x : ts) : Prop := older t x \/ exists k, x = ts_at t k.
+Definition upton (t : ts) (n : ts * option ts) : Prop :=
+  upto t (fst n) /\ match snd n with Some d => upto t d | None => True end.
+
+(* what a local call with timestamp t leaves at the container tg it works on *)
+Definition local_ok (t : ts) (tg x' : jt) : Prop :=
+  wft x' /\ jtomb x' = false /\ NoDup (all_cs x') /\
+  (forall y, In y (all_cs x') -> In y (all_cs tg) \/ exists k, y = ts_at t k) /\
+  Forall (upton t) (nodes x').
+
+Lemma below_upton t n : below t n -> upton t n.
+Proof. intros [H1 H2]. split; [left; exact H1|]. destruct (snd n); [left; exact H2|exact I]. Qed.
+
+Lemma older_not_new t x k : older t x -> x <> ts_at t k.
+Proof. intros [_ H] ->. change (key_of (ts_at t k)) with (key_of t) in H. rewrite klt_irrefl in H. discriminate. Qed.
+
+Lemma NoDup_app_intro {A} (a b : list A) : NoDup a -> NoDup b -> (forall x, In x a -> ~ In x b) -> NoDup (a ++ b).
+Proof.
+  induction a as [|x a IH]; cbn [app]; intros Ha Hb Hd; [exact Hb|]. inversion Ha as [|? ? Hn Ha']; subst. constructor.
+  - intros Hin. apply in_app_or in Hin. destruct Hin as [Hin|Hin]; [exact (Hn Hin)|exact (Hd x (or_introl eq_refl) Hin)].
+  - apply IH; [exact Ha'|exact Hb|]. intros y Hy. apply Hd. right. exact Hy.
+Qed.
+
+Theorem local_change_lifts t f fv path s s' tg x' :
+  wft s -> jtomb s = false -> NoDup (all_cs s) -> Forall (below t) (nodes s) ->
+  resolve s path = Some tg -> f tg = Some x' -> jview x' = fv (jview tg) -> local_ok t tg x' ->
+  upd_path s path f = Some s' ->
+  jview s' = vupd (jview s) path fv /\ wft s' /\ jtomb s' = false /\ NoDup (all_cs s') /\ Forall (upton t) (nodes s').
+Proof.
+  intros Hw Hl Hnd Hb Hres Hf Hv [Kw [Kt [Kn [Kc Ku]]]] Hu.
+  destruct (upd_path_at f fv path s s' tg Hw Hl Hres) as [V [T W]]; [intros _ _ x Hx; rewrite Hf in Hx; injection Hx as <-; auto|exact Hu|].
+  destruct (upd_path_nodes f path s s' tg Hres Hu) as [x0 [rest [Hf0 [P1 P2]]]]. rewrite Hf in Hf0. injection Hf0 as <-.
+  split; [exact V|]. split; [exact W|]. split; [exact T|]. split.
+  - rewrite (all_cs_nodes s) in Hnd. rewrite (all_cs_nodes s').
+    assert (Q1 := Permutation_map fst P1). assert (Q2 := Permutation_map fst P2). rewrite map_app in Q1, Q2.
+    apply (Permutation_NoDup (Permutation_sym Q2)). pose proof (Permutation_NoDup Q1 Hnd) as Hnd'.
+    apply NoDup_app_inv in Hnd'. destruct Hnd' as [_ [Hr Hdis]].
+    apply NoDup_app_intro; [rewrite <- all_cs_nodes; exact Kn|exact Hr|].
+    intros y Hy Hyr. rewrite <- all_cs_nodes in Hy. destruct (Kc y Hy) as [Hin|[k ->]].
+    + rewrite all_cs_nodes in Hin. exact (Hdis y Hin Hyr).
+    + apply in_map_iff in Hyr. destruct Hyr as [n [En Hn]].
+      assert (Hn' : In n (nodes s)) by (apply (Permutation_in _ (Permutation_sym P1)); apply in_or_app; right; exact Hn).
+      rewrite Forall_forall in Hb. destruct (Hb n Hn') as [Ho _]. rewrite En in Ho. exact (older_not_new _ _ _ Ho eq_refl).
+  - apply (Permutation_Forall (Permutation_sym P2)). apply Forall_app. split; [exact Ku|].
+    apply Forall_forall. intros n Hn. apply below_upton. rewrite Forall_forall in Hb. apply Hb.
+    apply (Permutation_in _ (Permutation_sym P1)). apply in_or_app. right. exact Hn.
+Qed.
+
+(* ---------- the five local calls at the container they work on ---------- *)
+Lemma ts_bounded_at t k : ts_bounded t -> ts_bounded (ts_at t k).
+Proof. intros H. exact H. Qed.
+Lemma older_lt t x k : ts_bounded t -> older t x -> ts_lt x (ts_at t k) = true.
+Proof. intros Ht [Hx H]. rewrite (ts_lt_klt _ _ Hx (ts_bounded_at t k Ht)). exact H. Qed.
+
+Lemma below_cs t j y : Forall (below t) (nodes j) -> In y (all_cs j) -> older t y.
+Proof.
+  intros H Hy. rewrite all_cs_nodes in Hy. apply in_map_iff in Hy. destruct Hy as [n [<- Hn]].
+  rewrite Forall_forall in H. exact (proj1 (H n Hn)).
+Qed.
+Lemma below_jtime t j : Forall (below t) (nodes j) -> older t (jtime j).
+Proof.
+  intros H. rewrite (nodes_head j) in H. inversion H as [|? ? [H1 H2] _]; subst. cbn [fst snd] in *.
+  unfold jtime. destruct (jd j); assumption.
+Qed.
+Lemma below_child_obj t m k ch : Forall (below t) (nodes_of m) -> alookup str_eqb k m = Some ch -> Forall (below t) (nodes ch).
+Proof.
+  intros H E. destruct (alookup_split _ _ _ E) as [m1 [m2 [-> _]]]. rewrite nodes_of_app, nodes_of_cons in H. cbn [snd] in H.
+  apply Forall_app in H. destruct H as [_ H]. apply Forall_app in H. exact (proj1 H).
+Qed.
+
+Lemma cs_step t c (old_cs new_cs extra dropped : list ts) :
+  NoDup (c :: old_cs) -> (forall y, In y (c :: old_cs) -> older t y) ->
+  NoDup extra -> (forall y, In y extra -> exists k, y = ts_at t k) ->
+  Permutation (old_cs ++ extra) (new_cs ++ dropped) ->
+  NoDup (c :: new_cs) /\ (forall y, In y (c :: new_cs) -> In y (c :: old_cs) \/ exists k, y = ts_at t k).
+Proof.
+  intros Hnd Hold Hex Hnew P. inversion Hnd as [|? ? Hc Ho]; subst.
+  assert (Hsub : forall y, In y new_cs -> In y old_cs \/ In y extra).
+  { intros y Hy. apply in_app_or. apply (Permutation_in _ (Permutation_sym P)). apply in_or_app. left. exact Hy. }
+  assert (N1 : NoDup (old_cs ++ extra)).
+  { apply NoDup_app_intro; [exact Ho|exact Hex|]. intros y Hy He. destruct (Hnew y He) as [k ->].
+    exact (older_not_new _ _ _ (Hold _ (or_intror Hy)) eq_refl). }
+  pose proof (Permutation_NoDup P N1) as N2. apply NoDup_app_inv in N2. destruct N2 as [N2 _]. split.
+  - constructor; [|exact N2]. intros Hin. destruct (Hsub c Hin) as [H|H]; [exact (Hc H)|].
+    destruct (Hnew c H) as [k E]. exact (older_not_new _ _ _ (Hold c (or_introl eq_refl)) E).
+  - intros y [<-|Hy]; [left; left; reflexivity|]. destruct (Hsub y Hy) as [H|H]; [left; right; exact H|right; exact (Hnew y H)].
+Qed.
+
+Lemma newnode_cs t j y : Forall (newnode t) (nodes j) -> In y (all_cs j) -> exists k, y = ts_at t k.
+Proof.
+  intros H Hy. rewrite all_cs_nodes in Hy. apply in_map_iff in Hy. destruct Hy as [n [<- Hn]].
+  rewrite Forall_forall in H. exact (proj2 (H n Hn)).
+Qed.
+Lemma newnode_upton t n : newnode t n -> upton t n.
+Proof. intros [H1 [k H2]]. split; [right; exists k; exact H2|rewrite H1; exact I]. Qed.
+
+Theorem put_local_ok t tg k v x' :
+  ts_bounded t -> canon v -> wft tg -> jtomb tg = false -> NoDup (all_cs tg) -> Forall (below t) (nodes tg) ->
+  obj_put tg k (fst (create t v 0)) = Some x' ->
+  jview x' = vput k v (jview tg) /\ local_ok t tg x'.
+Proof.
+  intros Ht Cv Hw Hl Hnd Hb. destruct tg as [|c d m s|]; try discriminate.
+  set (child := fst (create t v 0)).
+  pose proof (create_not_tomb t v 0) as Tch. pose proof (create_view t v Cv 0) as Vch. pose proof (create_wft t v Cv 0) as Wch.
+  pose proof (create_ids_distinct t v 0) as Nch. pose proof (create_clean t v 0) as Cch. fold child in Tch, Vch, Wch, Nch, Cch.
+  destruct Hw as [Hk Hm]. rewrite nodes_obj in Hb. destruct (proj1 (Forall_cons_iff _ _ _) Hb) as [Hb0 Hbm].
+  intros Hp. split.
+  - rewrite <- Vch. apply (obj_put_view c d m s k child x' Hk Tch); [|exact Hp].
+    intros old E. assert (Hj : jtime child = jc child) by (unfold jtime; unfold jtomb in Tch; destruct (jd child); [discriminate|reflexivity]).
+    rewrite Hj. destruct (newnode_cs t child (jc child) Cch (jc_in_all_cs child)) as [k0 Ek0]. rewrite Ek0.
+    apply older_lt; [exact Ht|]. apply below_jtime. eapply below_child_obj; eauto.
+  - rewrite all_cs_obj in Hnd.
+    assert (Hold : forall y, In y (c :: cs_of m) -> older t y).
+    { intros y Hy. apply (below_cs t (JO c d m s)); [rewrite nodes_obj; exact Hb|rewrite all_cs_obj; exact Hy]. }
+    cbn [obj_put] in Hp. destruct (alookup str_eqb k m) as [old|] eqn:E.
+    + assert (Hlt : ts_lt (jtime old) (jtime child) = true).
+      { assert (Hj : jtime child = jc child) by (unfold jtime; unfold jtomb in Tch; destruct (jd child); [discriminate|reflexivity]).
+        rewrite Hj. destruct (newnode_cs t child (jc child) Cch (jc_in_all_cs child)) as [k0 Ek0]. rewrite Ek0.
+        apply older_lt; [exact Ht|]. apply below_jtime. eapply below_child_obj; eauto. }
+      rewrite Hlt in Hp. injection Hp as <-.
+      destruct (alookup_split _ _ _ E) as [m1 [m2 [E1 E2]]].
+      destruct (cs_step t c (cs_of m) (cs_of (aset str_eqb k child m)) (all_cs child) (all_cs old) Hnd Hold Nch (fun y => newnode_cs t child y Cch)) as [K1 K2].
+      { rewrite (E2 child), E1. unfold cs_of. rewrite !flat_map_app. cbn [flat_map snd]. rewrite <- !app_assoc.
+        apply Permutation_app_head. eapply Permutation_trans; [apply Permutation_app_comm|]. rewrite <- app_assoc.
+        apply Permutation_app_swap_app. }
+      split; [split; [apply aset_nodup, Hk|apply Wm_aset; assumption]|]. split; [exact Hl|]. rewrite !all_cs_obj. split; [exact K1|]. split; [exact K2|].
+      rewrite nodes_obj. constructor; [apply below_upton, Hb0|].
+      rewrite (E2 child). rewrite E1 in Hbm. rewrite !nodes_of_app, !nodes_of_cons in *. cbn [snd] in *.
+      apply Forall_app in Hbm. destruct Hbm as [B1 B2]. apply Forall_app in B2. destruct B2 as [_ B2].
+      apply Forall_app. split; [eapply Forall_impl; [apply below_upton|exact B1]|]. apply Forall_app. split.
+      * eapply Forall_impl; [apply newnode_upton|exact Cch].
+      * eapply Forall_impl; [apply below_upton|exact B2].
+    + injection Hp as <-.
+      destruct (cs_step t c (cs_of m) (cs_of (m ++ [(k, child)])) (all_cs child) [] Hnd Hold Nch (fun y => newnode_cs t child y Cch)) as [K1 K2].
+      { unfold cs_of. rewrite flat_map_app. cbn [flat_map snd]. rewrite !app_nil_r. reflexivity. }
+      split; [split|].
+      * rewrite map_app. cbn [map fst]. apply nodup_snoc''; [exact Hk|apply alookup_none_notin, E].
+      * change (Wm (m ++ [(k, child)])). clear -Hm Wch. induction m as [|[k0 c0] m IH]; [split; [exact Wch|exact I]|]. destruct Hm as [H1 H2]. split; [exact H1|exact (IH H2)].
+      * split; [exact Hl|]. rewrite !all_cs_obj. split; [exact K1|]. split; [exact K2|].
+        rewrite nodes_obj. constructor; [apply below_upton, Hb0|]. rewrite nodes_of_app. apply Forall_app. split.
+        -- eapply Forall_impl; [apply below_upton|exact Hbm].
+        -- unfold nodes_of. cbn [flat_map snd]. rewrite app_nil_r. eapply Forall_impl; [apply newnode_upton|exact Cch].
+Qed.
+
+Theorem remove_local_ok t tg k x' :
+  ts_bounded t -> wft tg -> jtomb tg = false -> NoDup (all_cs tg) -> Forall (below t) (nodes tg) ->
+  obj_remove_local tg k (ts_at t 0) = Some x' ->
+  jview x' = vrm k (jview tg) /\ local_ok t tg x'.
+Proof.
+  intros Ht Hw Hl Hnd Hb. destruct tg as [|c d m s|]; try discriminate. intros Hp. destruct Hw as [Hk Hm]. split.
+  - exact (obj_remove_view c d m s k (ts_at t 0) x' Hk Hp).
+  - cbn [obj_remove_local] in Hp. destruct (alookup str_eqb k m) as [old|] eqn:E; [|discriminate].
+    destruct (negb (jtomb old) && ts_lt (jtime old) (ts_at t 0)); [|discriminate]. injection Hp as <-.
+    destruct (alookup_split _ _ _ E) as [m1 [m2 [E1 E2]]].
+    assert (Ecs : cs_of (aset str_eqb k (set_d old (ts_at t 0)) m) = cs_of m).
+    { rewrite E2, E1. unfold cs_of. rewrite !flat_map_app. cbn [flat_map snd]. rewrite all_cs_set_d. reflexivity. }
+    split; [split; [apply aset_nodup, Hk|apply Wm_aset; [exact Hm|apply wft_set_d; exact (wft_obj_child _ _ _ Hm E)]]|].
+    split; [exact Hl|]. rewrite !all_cs_obj, Ecs. split; [rewrite all_cs_obj in Hnd; exact Hnd|]. split; [intros y Hy; left; exact Hy|].
+    rewrite nodes_obj in *. destruct (proj1 (Forall_cons_iff _ _ _) Hb) as [Hb0 Hbm]. constructor; [apply below_upton, Hb0|].
+    rewrite E2. rewrite E1 in Hbm. rewrite !nodes_of_app, !nodes_of_cons in *. cbn [snd] in *.
+    apply Forall_app in Hbm. destruct Hbm as [B1 B2]. apply Forall_app in B2. destruct B2 as [B2 B3].
+    apply Forall_app. split; [eapply Forall_impl; [apply below_upton|exact B1]|]. apply Forall_app. split.
+    + rewrite nodes_set_d. rewrite (nodes_head old) in B2. destruct (proj1 (Forall_cons_iff _ _ _) B2) as [[B20 _] B2t]. constructor.
+      * split; [left; exact B20|right; exists 0; reflexivity].
+      * eapply Forall_impl; [apply below_upton|exact B2t].
+    + eapply Forall_impl; [apply below_upton|exact B3].
+Qed.
+
+(* arrays: any edit of the stored list by new trees of this operation *)
+Theorem array_local_ok t c d l sz l' sz' ns :
+  ts_bounded t -> wft (JA c d l sz) -> jtomb (JA c d l sz) = false -> NoDup (all_cs (JA c d l sz)) ->
+  Forall (below t) (nodes (JA c d l sz)) ->
+  ledit t l ns l' -> Forall wft ns -> NoDup (flat_map all_cs ns) -> Forall (newnode t) (flat_map nodes ns) ->
+  sz' = Z.of_nat (length (amem l')) ->
+  local_ok t (JA c d l sz) (JA c d l' sz').
+Proof.
+  intros Ht [Hs Hm] Hl Hnd Hb He Wn Nn Cn Hsz. rewrite all_cs_arr in Hnd. rewrite nodes_arr in Hb.
+  destruct (proj1 (Forall_cons_iff _ _ _) Hb) as [Hb0 Hbm].
+  assert (Hold : forall y, In y (c :: cs_of l) -> older t y).
+  { intros y Hy. apply (below_cs t (JA c d l sz)); [rewrite nodes_arr; exact Hb|rewrite all_cs_arr; exact Hy]. }
+  destruct (ledit_cs t l ns l' He) as [dropped P].
+  assert (Hnew : forall y, In y (flat_map all_cs ns) -> exists k, y = ts_at t k).
+  { intros y Hy. apply in_flat_map in Hy. destruct Hy as [n [Hn Hy]]. rewrite all_cs_nodes in Hy. apply in_map_iff in Hy.
+    destruct Hy as [nd [<- Hnd']]. rewrite Forall_forall in Cn. apply (Cn nd). apply in_flat_map. exists n. auto. }
+  destruct (cs_step t c (cs_of l) (cs_of l') (flat_map all_cs ns) dropped Hnd Hold Nn Hnew P) as [K1 K2].
+  split; [split; [exact Hsz|exact (ledit_wl t l ns l' He Hm Wn)]|]. split; [exact Hl|]. rewrite !all_cs_arr. split; [exact K1|]. split; [exact K2|].
+  rewrite nodes_arr. constructor; [apply below_upton, Hb0|].
+  apply (ledit_nodes t (upton t) l ns l' He).
+  - intros c0 d0 k [H1 _]. split; [exact H1|right; exists k; reflexivity].
+  - eapply Forall_impl; [apply below_upton|exact Hbm].
+  - eapply Forall_impl; [apply newnode_upton|exact Cn].
+Qed.
+
+(* ---------- one local call on the whole document ---------- *)
+From Orda.Proofs Require Import ListFacts.
+
+Definition varr (f : list val -> list val) (v : val) : val := match v with VArr l => VArr (f l) | _ => v end.
+(* the call on the plain JSON value: the sub-value at the path is changed by the plain object / slice operation *)
+Definition plain_call (c : dcall) (v : val) : val :=
+  match c with
+  | DPut p k x => vupd v p (vput k x)
+  | DRmv p k => vupd v p (vrm k)
+  | DIns p pos vs => vupd v p (varr (fun l => plain_insert l (Z.to_nat pos) vs))
+  | DDel p pos num => vupd v p (varr (fun l => plain_delete l (Z.to_nat pos) (Z.to_nat num)))
+  | DUpd p pos vs => vupd v p (varr (fun l => plain_update l (Z.to_nat pos) vs))
+  end.
+Definition canon_call (c : dcall) : Prop :=
+  match c with DPut _ _ v => canon v | DIns _ _ vs | DUpd _ _ vs => Forall canon vs | _ => True end.
+(* the replica invariant before an operation stamped t: a well-formed, live root; creation timestamps pairwise distinct;
+   every timestamp in the tree older than t *)
+Definition Inv (t : ts) (s : jt) : Prop := wft s /\ jtomb s = false /\ NoDup (all_cs s) /\ Forall (below t) (nodes s).
+
+Lemma resolve_nodes : forall path j tg, resolve j path = Some tg -> exists rest, Permutation (nodes j) (nodes tg ++ rest).
+Proof.
+  induction path as [|seg rest IH]; intros j tg; cbn [resolve].
+  - intros [= <-]. exists []. rewrite app_nil_r. reflexivity.
+  - destruct seg as [k|i].
+    + destruct j as [| c d m s |]; try discriminate.
+      destruct (alookup str_eqb k m) as [ch|] eqn:E; [|discriminate]. destruct (jtomb ch); [discriminate|].
+      intros Hres. destruct (IH ch tg Hres) as [r0 P1]. destruct (alookup_split _ _ _ E) as [m1 [m2 [E1 _]]].
+      exists ((c, d) :: nodes_of m1 ++ r0 ++ nodes_of m2). rewrite nodes_obj, E1, nodes_of_app, nodes_of_cons. cbn [snd]. apply perm_ctx. exact P1.
+    + destruct j as [| | c d l s]; try discriminate. destruct ((0 <=? i)%Z && (i <? s)%Z); [|discriminate].
+      destruct (nth_live l (Z.to_nat i)) as [ch|] eqn:E; [|discriminate].
+      intros Hres. destruct (IH ch tg Hres) as [r0 P1]. destruct (nth_live_split _ _ _ E) as [l1 [o [l2 [E1 _]]]].
+      exists ((c, d) :: nodes_of l1 ++ r0 ++ nodes_of l2). rewrite nodes_arr, E1, nodes_of_app, nodes_of_cons. cbn [snd]. apply perm_ctx. exact P1.
+Qed.
+
+Lemma Inv_at t s path tg : Inv t s -> resolve s path = Some tg ->
+  wft tg /\ jtomb tg = false /\ NoDup (all_cs tg) /\ Forall (below t) (nodes tg).
+Proof.
+  intros [Hw [Hl [Hnd Hb]]] Hres. destruct (resolve_wft _ _ _ Hw Hl Hres) as [W T]. destruct (resolve_nodes _ _ _ Hres) as [rest P].
+  split; [exact W|]. split; [exact T|]. split.
+  - rewrite all_cs_nodes in *. pose proof (Permutation_NoDup (Permutation_map fst P) Hnd) as H. rewrite map_app in H.
+    apply NoDup_app_inv in H. exact (proj1 H).
+  - pose proof (Permutation_Forall P Hb) as H. apply Forall_app in H. exact (proj1 H).
+Qed.
+
+Lemma created_many_facts t vs : Forall canon vs ->
+  let ns := fst (create_many t vs 0) in
+  Forall wft ns /\ NoDup (flat_map all_cs ns) /\ Forall (newnode t) (flat_map nodes ns) /\ length ns = length vs.
+Proof.
+  intros Hc ns. destruct (create_many_shape t vs 0) as [Hs Hlen]. fold ns in Hs, Hlen. split; [|split; [|split; [|exact Hlen]]].
+  - eapply Forall_impl; [|exact Hs]. intros n [x [ix [Hx ->]]]. apply create_wft. rewrite Forall_forall in Hc. exact (Hc x Hx).
+  - destruct (create_many_ids t vs 0) as [n E]. fold ns in E. rewrite E. apply map_ts_at_nodup, nrange_nodup.
+  - apply Forall_forall. intros nd Hnd. apply in_flat_map in Hnd. destruct Hnd as [n [Hn Hnd]].
+    rewrite Forall_forall in Hs. destruct (Hs n Hn) as [x [ix [_ ->]]]. exact (proj1 (Forall_forall _ _) (create_clean t x ix) nd Hnd).
+Qed.
+
+Theorem doc_local_step s c i s' o :
+  let t := opid_ts i in
+  ts_bounded t -> Inv t s -> canon_call c -> doc_validate s c = true -> doc_local s c i = Some (s', o) ->
+  jview s' = plain_call c (jview s) /\ wft s' /\ jtomb s' = false /\ NoDup (all_cs s') /\ Forall (upton t) (nodes s').
+Proof.
+  intros t Ht HI Hc Hv Hd. pose proof HI as [Hw [Hl [Hnd Hb]]].
+  unfold doc_validate in Hv. unfold doc_local in Hd. fold t in Hd.
+  destruct (resolve s (call_path c)) as [j|] eqn:Hres; [|discriminate].
+  destruct (Inv_at t s _ j HI Hres) as [Wj [Tj [Nj Bj]]].
+  assert (Lift : forall f fv x', f j = Some x' -> jview x' = fv (jview j) -> local_ok t j x' ->
+            on_node s (jc j) f = Some s' ->
+            jview s' = vupd (jview s) (call_path c) fv /\ wft s' /\ jtomb s' = false /\ NoDup (all_cs s') /\ Forall (upton t) (nodes s')).
+  { intros f fv x' Hf Hview Hok Hon. rewrite (on_node_is_path_update f _ s j Hnd Hres) in Hon.
+    exact (local_change_lifts t f fv _ s s' j x' Hw Hl Hnd Hb Hres Hf Hview Hok Hon). }
+  destruct c as [p k v|p k|p pos vs|p pos num|p pos vs]; cbn [call_path canon_call plain_call] in *.
+  - (* put *)
+    destruct (create t v 0) as [child i1] eqn:Ec. assert (Ech : child = fst (create t v 0)) by (rewrite Ec; reflexivity).
+    destruct (on_node s (jc j) (fun j0 => obj_put j0 k child)) as [s1|] eqn:Hon; [|discriminate]. injection Hd as <- _.
+    assert (Hx : exists x', obj_put j k child = Some x').
+    { rewrite (on_node_is_path_update _ _ s j Hnd Hres) in Hon. destruct (upd_path_nodes _ _ _ _ _ Hres Hon) as [x' [_ [Hf _]]]. eauto. }
+    destruct Hx as [x' Hx]. pose proof Hx as Hx0. rewrite Ech in Hx0.
+    destruct (put_local_ok t j k v x' Ht Hc Wj Tj Nj Bj Hx0) as [V K].
+    exact (Lift (fun j0 => obj_put j0 k child) (vput k v) x' Hx V K Hon).
+  - (* remove *)
+    destruct (on_node s (jc j) (fun j0 => obj_remove_local j0 k t)) as [s1|] eqn:Hon; [|discriminate]. injection Hd as <- _.
+    assert (Hx : exists x', obj_remove_local j k t = Some x').
+    { rewrite (on_node_is_path_update _ _ s j Hnd Hres) in Hon. destruct (upd_path_nodes _ _ _ _ _ Hres Hon) as [x' [_ [Hf _]]]. eauto. }
+    destruct Hx as [x' Hx].
+    destruct (remove_local_ok t j k x' Ht Wj Tj Nj Bj Hx) as [V K].
+    exact (Lift (fun j0 => obj_remove_local j0 k t) (vrm k) x' Hx V K Hon).
+  - (* insert *)
+    destruct j as [| |c d l sz]; try discriminate.
+    destruct (create_many t vs 0) as [ns i1] eqn:Ec. assert (Ens : ns = fst (create_many t vs 0)) by (rewrite Ec; reflexivity).
+    destruct (ains_local l (Z.to_nat pos) (map (fun n => (jtime n, n)) ns)) as [[l' target]|] eqn:Ea; [|discriminate].
+    match type of Hd with option_map _ (on_node _ _ ?f) = _ => set (g := f) in * end.
+    destruct (on_node s (jc (JA c d l sz)) g) as [s1|] eqn:Hon; [|discriminate]. injection Hd as <- _.
+    destruct (created_many_facts t vs Hc) as [F1 [F2 [F3 F4]]]. rewrite <- Ens in F1, F2, F3, F4.
+    pose proof Wj as [Hsz _]. apply andb_true_iff in Hv. destruct Hv as [Hv1 Hv2]. apply Z.leb_le in Hv1, Hv2.
+    destruct (ains_local_spec (map (fun n => (jtime n, n)) ns) l (Z.to_nat pos) ltac:(lia)) as [l2 [t2 [E2 V2]]].
+    rewrite Ea in E2. injection E2 as <- <-. rewrite Ens, (create_many_view t vs Hc 0) in V2.
+    apply (Lift g (varr (fun a => plain_insert a (Z.to_nat pos) vs)) (JA c d l' (sz + Z.of_nat (length ns)))); [reflexivity| |  |exact Hon].
+    + rewrite !jview_arr. cbn [varr]. rewrite V2. reflexivity.
+    + apply (array_local_ok t c d l sz l' _ ns Ht Wj Tj Nj Bj (ains_local_ledit t ns _ _ _ _ Ea) F1 F2 F3).
+      rewrite V2, !app_length, firstn_length, skipn_length, F4. lia.
+  - (* delete *)
+    destruct j as [| |c d l sz]; try discriminate.
+    destruct (adel_local l (Z.to_nat pos) (Z.to_nat num) t 0) as [[l' targets]|] eqn:Ea; [|discriminate].
+    match type of Hd with option_map _ (on_node _ _ ?f) = _ => set (g := f) in * end.
+    destruct (on_node s (jc (JA c d l sz)) g) as [s1|] eqn:Hon; [|discriminate]. injection Hd as <- _.
+    pose proof Wj as [Hsz _]. unfold valid_range in Hv. rewrite !andb_true_iff, !Z.leb_le in Hv. destruct Hv as [[[Hv1 Hv2] Hv3] Hv4].
+    destruct (adel_local_spec t l (Z.to_nat pos) (Z.to_nat num) 0 ltac:(lia)) as [l2 [t2 [E2 [V2 _]]]].
+    rewrite Ea in E2. injection E2 as <- <-.
+    apply (Lift g (varr (fun a => plain_delete a (Z.to_nat pos) (Z.to_nat num))) (JA c d l' (sz - num)%Z)); [reflexivity| | |exact Hon].
+    + rewrite !jview_arr. cbn [varr]. rewrite V2. reflexivity.
+    + apply (array_local_ok t c d l sz l' _ [] Ht Wj Tj Nj Bj (adel_local_ledit t _ _ _ _ _ _ Ea)); [constructor|constructor|constructor|].
+      rewrite V2, !app_length, firstn_length, skipn_length. lia.
+  - (* update *)
+    destruct j as [| |c d l sz]; try discriminate.
+    destruct (aupd_local l (Z.to_nat pos) vs t 0) as [[l' targets]|] eqn:Ea; [|discriminate].
+    match type of Hd with option_map _ (on_node _ _ ?f) = _ => set (g := f) in * end.
+    destruct (on_node s (jc (JA c d l sz)) g) as [s1|] eqn:Hon; [|discriminate]. injection Hd as <- _.
+    destruct (created_many_facts t vs Hc) as [F1 [F2 [F3 F4]]].
+    pose proof Wj as [Hsz _]. unfold valid_range in Hv. rewrite !andb_true_iff, !Z.leb_le in Hv. destruct Hv as [[[Hv1 Hv2] Hv3] Hv4].
+    destruct (aupd_local_spec t vs l (Z.to_nat pos) 0 Hc ltac:(lia)) as [l2 [t2 [E2 V2]]].
+    rewrite Ea in E2. injection E2 as <- <-.
+    apply (Lift g (varr (fun a => plain_update a (Z.to_nat pos) vs)) (JA c d l' sz)); [reflexivity| | |exact Hon].
+    + rewrite !jview_arr. cbn [varr]. rewrite V2. reflexivity.
+    + apply (array_local_ok t c d l sz l' _ _ Ht Wj Tj Nj Bj (aupd_local_ledit t _ _ _ _ _ _ Ea) F1 F2 F3).
+      rewrite V2, !app_length, firstn_length, skipn_length. lia.
+Qed.
+
+(* ---------- any sequence of local calls ---------- *)
+(* the replica invariant after the operations stamped up to t *)
+Definition Inv' (t : ts) (s : jt) : Prop := wft s /\ jtomb s = false /\ NoDup (all_cs s) /\ Forall (upton t) (nodes s).
+
+Lemma upton_below t t2 n : ts_bounded t -> klt (key_of t) (key_of t2) = true -> upton t n -> below t2 n.
+Proof.
+  intros Ht Hlt. assert (G : forall x, upto t x -> older t2 x).
+  { intros x [[Hx H]|[k ->]]; split; [exact Hx|eapply klt_trans; eauto|exact Ht|exact Hlt]. }
+  intros [H1 H2]. split; [apply G, H1|]. destruct (snd n); [apply G, H2|exact I].
+Qed.
+Lemma Inv'_next t t2 s : ts_bounded t -> klt (key_of t) (key_of t2) = true -> Inv' t s -> Inv t2 s.
+Proof.
+  intros Ht Hlt [Hw [Hl [Hn Hu]]]. split; [exact Hw|]. split; [exact Hl|]. split; [exact Hn|].
+  eapply Forall_impl; [intros n; apply (upton_below t t2 n Ht Hlt)|exact Hu].
+Qed.
+Lemma Inv'_init : Inv' oldest_ts doc_init.
+Proof.
+  split; [split; [constructor|exact I]|]. split; [reflexivity|]. split; [repeat constructor; intros []|].
+  constructor; [|constructor]. split; [right; exists 0; reflexivity|exact I].
+Qed.
+
+(* the API: a call is validated, then executed with the next operation identifier *)
+Fixpoint run_calls (s : jt) (cs : list (dcall * opid)) : option jt :=
+  match cs with
+  | [] => Some s
+  | (c, i) :: r => if doc_validate s c then match doc_local s c i with Some (s', _) => run_calls s' r | None => None end else None
+  end.
+(* identifiers with increasing timestamps (Lamport clock), none wrapped *)
+Fixpoint increasing (t : ts) (cs : list (dcall * opid)) : Prop :=
+  match cs with
+  | [] => True
+  | (_, i) :: r => ts_bounded (opid_ts i) /\ klt (key_of t) (key_of (opid_ts i)) = true /\ increasing (opid_ts i) r
+  end.
+
+Theorem doc_calls_refine : forall cs t s s',
+  ts_bounded t -> Inv' t s -> increasing t cs -> Forall (fun ci => canon_call (fst ci)) cs ->
+  run_calls s cs = Some s' ->
+  jview s' = fold_left (fun v ci => plain_call (fst ci) v) cs (jview s) /\ exists t', Inv' t' s'.
+Proof.
+  induction cs as [|[c i] r IH]; intros t s s' Ht HI Hinc Hc; cbn [run_calls fold_left fst].
+  - intros [= <-]. split; [reflexivity|exists t; exact HI].
+  - destruct Hinc as [Hb [Hlt Hinc]]. inversion Hc as [|? ? Hc1 Hc2]; subst. cbn [fst] in Hc1.
+    destruct (doc_validate s c) eqn:Hv; [|discriminate]. destruct (doc_local s c i) as [[s1 o]|] eqn:Hd; [|discriminate].
+    intros Hr. pose proof (Inv'_next t (opid_ts i) s Ht Hlt HI) as HI1.
+    destruct (doc_local_step s c i s1 o Hb HI1 Hc1 Hv Hd) as [V [W [T [N U]]]].
+    destruct (IH (opid_ts i) s1 s' Hb (conj W (conj T (conj N U))) Hinc Hc2 Hr) as [V' K]. split; [rewrite V', V; reflexivity|exact K].
+Qed.
+
+(* from the empty document *)
+Corollary doc_calls_refine_init cs s' :
+  increasing oldest_ts cs -> Forall (fun ci => canon_call (fst ci)) cs -> run_calls doc_init cs = Some s' ->
+  jview s' = fold_left (fun v ci => plain_call (fst ci) v) cs (VObj []).
+Proof.
+  intros Hi Hc Hr. assert (Hb : ts_bounded oldest_ts) by (unfold ts_bounded, oldest_ts, two31, two63; cbn; lia).
+  exact (proj1 (doc_calls_refine cs oldest_ts doc_init s' Hb Inv'_init Hi Hc Hr)).
+Qed.
+
+(* ---------- JSON patch: the pointer is resolved on the tree exactly as it resolves on the readable value ---------- *)
+Fixpoint vtokens (v : val) (toks : list str) : option (list pseg * val) :=
+  match toks with
+  | [] => Some ([], v)
+  | t :: rest =>
+      match v with
+      | VObj l => match alookup str_eqb t l with
+                  | Some c => match vtokens c rest with Some (p, x) => Some (PKey t :: p, x) | None => None end
+                  | None => None
+                  end
+      | VArr l => match atoi t with
+                  | Some i => if (0 <=? i)%Z && (i <? Z.of_nat (length l))%Z
+                              then match nth_error l (Z.to_nat i) with
+                                   | Some c => match vtokens c rest with Some (p, x) => Some (PIdx i :: p, x) | None => None end
+                                   | None => None
+                                   end
+                              else None
+                  | None => None
+                  end
+      | _ => None
+      end
+  end.
+(* RFC 6902 add / remove / replace as calls on the plain value: the last token is a member name of an object, or an
+   index (or "-", the end) of an array *)
+Definition vpatch_call (v : val) (p : patch) : option dcall :=
+  match map unescape (split_slash (pt_path p) []) with
+  | _ :: toks =>
+      match rev toks with
+      | key :: rparent =>
+          match vtokens v (rev rparent) with
+          | Some (path, VObj _) =>
+              match pt_type p with
+              | PAdd | PReplace => Some (DPut path key (pt_val p))
+              | PRemove => Some (DRmv path key)
+              end
+          | Some (path, VArr a) =>
+              match pt_type p with
+              | PAdd => if str_eqb key [45] then Some (DIns path (Z.of_nat (length a)) [pt_val p])
+                        else option_map (fun i => DIns path i [pt_val p]) (atoi key)
+              | PRemove => option_map (fun i => DDel path i 1%Z) (atoi key)
+              | PReplace => option_map (fun i => DUpd path i [pt_val p]) (atoi key)
+              end
+          | _ => None
+          end
+      | [] => None
+      end
+  | [] => None
+  end.
+
+Lemma alookup_omem_full m k : NoDup (map fst m) ->
+  alookup str_eqb k (omem m) = match alookup str_eqb k m with Some c => if jtomb c then None else Some (jview c) | None => None end.
+Proof.
+  induction m as [|[k0 c] m IH]; cbn [alookup map fst omem flat_map]; [reflexivity|]. intros Hnd. inversion Hnd as [|? ? Hn Hd]; subst.
+  fold (omem m). destruct (str_eqb k k0) eqn:E.
+  - apply str_eqb_eq in E. subst k0. destruct (jtomb c); cbn [app alookup]; [|rewrite str_eqb_refl; reflexivity].
+    destruct (alookup str_eqb k (omem m)) eqn:El; [|reflexivity]. exfalso. apply Hn. apply omem_keys_in. eapply alookup_some_in; eauto.
+  - destruct (jtomb c); cbn [app alookup]; [apply IH, Hd|]. rewrite E. apply IH, Hd.
+Qed.
+Lemma nth_live_some l : forall n, (n < length (amem l))%nat -> exists ch, nth_live l n = Some ch.
+Proof.
+  induction l as [|x l IH]; intros n; [cbn; lia|]. cbn [nth_live]. destruct (alive x) eqn:Lx.
+  - rewrite (amem_cons_live _ _ Lx). cbn [length]. destruct n as [|n]; [eauto|]. intros H. apply IH. lia.
+  - rewrite (amem_cons_dead _ _ Lx). apply IH.
+Qed.
+
+Lemma tokens_view : forall toks j, wft j ->
+  match tokens_path j toks with
+  | Some (p, x) => vtokens (jview j) toks = Some (p, jview x) /\ wft x
+  | None => vtokens (jview j) toks = None
+  end.
+Proof.
+  induction toks as [|t rest IH]; intros j Hw; cbn [tokens_path vtokens]; [auto|].
+  destruct j as [c d v|c d m s|c d l s].
+  - cbn [jview]. destruct v; try reflexivity; destruct Hw.
+  - destruct Hw as [Hnd Hch]. rewrite jview_obj.
+    rewrite <- (alookup_perm (omem m) (sort_by_key (omem m)) t (omem_nodup _ Hnd) (sort_perm _)), (alookup_omem_full m t Hnd).
+    destruct (alookup str_eqb t m) as [ch|] eqn:E; [|reflexivity]. destruct (jtomb ch); [reflexivity|].
+    specialize (IH ch (wft_obj_child _ _ _ Hch E)). destruct (tokens_path ch rest) as [[p x]|].
+    + destruct IH as [-> W]. auto.
+    + rewrite IH. reflexivity.
+  - destruct Hw as [Hs Hch]. rewrite jview_arr. destruct (atoi t) as [i|]; [|reflexivity]. rewrite <- Hs.
+    destruct ((0 <=? i)%Z && (i <? s)%Z) eqn:Hr; [|reflexivity].
+    apply andb_true_iff in Hr. destruct Hr as [H0 H1]. apply Z.leb_le in H0. apply Z.ltb_lt in H1.
+    destruct (nth_live_some l (Z.to_nat i) ltac:(lia)) as [ch E]. rewrite E, (nth_live_amem _ _ _ E).
+    specialize (IH ch (wft_arr_child _ _ _ Hch E)). destruct (tokens_path ch rest) as [[p x]|].
+    + destruct IH as [-> W]. auto.
+    + rewrite IH. reflexivity.
+Qed.
+
+Theorem patch_call_view s p : wft s -> patch_call s p = vpatch_call (jview s) p.
+Proof.
+  intros Hw. unfold patch_call, vpatch_call. destruct (map unescape (split_slash (pt_path p) [])) as [|t0 toks]; [reflexivity|].
+  destruct (rev toks) as [|key rparent]; [reflexivity|].
+  pose proof (tokens_view (rev rparent) s Hw) as H. destruct (tokens_path s (rev rparent)) as [[path x]|]; [|rewrite H; reflexivity].
+  destruct H as [-> Wx]. destruct x as [c d v|c d m sz|c d l sz].
+  - cbn [jview]. destruct v; try reflexivity; destruct Wx.
+  - rewrite jview_obj. reflexivity.
+  - rewrite jview_arr. destruct Wx as [-> _]. reflexivity.
+Qed.
+
+(* a patch script inside one transaction: each operation validated, resolved and executed on the current tree *)
+Fixpoint run_patches (s : jt) (ps : list (patch * opid)) : option jt :=
+  match ps with
+  | [] => Some s
+  | (p, i) :: r => if u_validate s (UPatch p) then match u_local s (UPatch p) i with Some (s', _) => run_patches s' r | None => None end
+                   else None
+  end.
+Fixpoint increasing_ids (t : ts) (is : list opid) : Prop :=
+  match is with
+  | [] => True
+  | i :: r => ts_bounded (opid_ts i) /\ klt (key_of t) (key_of (opid_ts i)) = true /\ increasing_ids (opid_ts i) r
+  end.
+(* one RFC 6902 operation on a plain JSON value *)
+Definition plain_patch (v : val) (p : patch) : val :=
+  match vpatch_call v p with Some c => plain_call c v | None => v end.
+
+Theorem patches_refine : forall ps t s s',
+  ts_bounded t -> Inv' t s -> increasing_ids t (map snd ps) -> Forall (fun pi => canon (pt_val (fst pi))) ps ->
+  run_patches s ps = Some s' ->
+  jview s' = fold_left (fun v pi => plain_patch v (fst pi)) ps (jview s) /\ exists t', Inv' t' s'.
+Proof.
+  induction ps as [|[p i] r IH]; intros t s s' Ht HI Hinc Hc; cbn [run_patches fold_left fst map snd].
+  - intros [= <-]. split; [reflexivity|exists t; exact HI].
+  - destruct Hinc as [Hb [Hlt Hinc]]. inversion Hc as [|? ? Hc1 Hc2]; subst. cbn [fst] in Hc1.
+    cbn [u_validate u_local]. pose proof HI as [Hw _]. unfold plain_patch at 2. rewrite <- (patch_call_view s p Hw).
+    destruct (patch_call s p) as [c|] eqn:Ep; [|discriminate].
+    destruct (doc_validate s c) eqn:Hv; [|discriminate]. destruct (doc_local s c i) as [[s1 o]|] eqn:Hd; [|discriminate].
+    intros Hr. pose proof (Inv'_next t (opid_ts i) s Ht Hlt HI) as HI1.
+    assert (Cc : canon_call c).
+    { unfold patch_call in Ep. destruct (map unescape (split_slash (pt_path p) [])) as [|t0 toks]; [discriminate|].
+      destruct (rev toks) as [|key rparent]; [discriminate|]. destruct (tokens_path s (rev rparent)) as [[path x]|]; [|discriminate].
+      destruct x as [| |c0 d0 l0 sz0]; [discriminate| |].
+      - destruct (pt_type p); injection Ep as <-; cbn; auto.
+      - destruct (pt_type p).
+        + destruct (str_eqb key [45]); [injection Ep as <-; cbn; auto|]. destruct (atoi key); [|discriminate]. injection Ep as <-. cbn. auto.
+        + destruct (atoi key); [|discriminate]. injection Ep as <-. exact I.
+        + destruct (atoi key); [|discriminate]. injection Ep as <-. cbn. auto. }
+    destruct (doc_local_step s c i s1 o Hb HI1 Cc Hv Hd) as [V [W [T [N U]]]].
+    destruct (IH (opid_ts i) s1 s' Hb (conj W (conj T (conj N U))) Hinc Hc2 Hr) as [V' K]. split; [rewrite V', V; reflexivity|exact K].
+Qed.
+
+(* ---------- Patch as the user transaction of the datatype machinery ---------- *)
+From Orda.Model Require Import Datatype CheckDoc.
+
+Fixpoint next_ids (i : opid) (n : nat) : list opid :=
+  match n with O => [] | S n' => opid_next i :: next_ids (opid_next i) n' end.
+Lemma next_ids_length i n : length (next_ids i n) = n.
+Proof. revert i; induction n as [|n IH]; intros i; cbn; [reflexivity|rewrite IH; reflexivity]. Qed.
+
+Lemma opid_next_increasing i : o_lam i + 1 < two63 -> klt (key_of (opid_ts i)) (key_of (opid_ts (opid_next i))) = true.
+Proof.
+  intros H. unfold klt, key_of, key_cmp, opid_ts, opid_next. cbn [era lam cuid o_era o_lam o_cuid].
+  rewrite N.compare_refl. assert (E : (o_lam i + 1) mod two64 = o_lam i + 1) by (apply N.mod_small; unfold two63, two64 in *; lia).
+  rewrite E. assert (L : (o_lam i ?= o_lam i + 1) = Lt) by (apply N.compare_lt_iff; lia). rewrite L. reflexivity.
+Qed.
+Lemma next_ids_increasing n : forall i, o_era i < two31 -> o_lam i + N.of_nat n < two63 ->
+  increasing_ids (opid_ts i) (next_ids i n).
+Proof.
+  induction n as [|n IH]; intros i He Hl; cbn [next_ids increasing_ids]; [exact I|].
+  assert (E : (o_lam i + 1) mod two64 = o_lam i + 1) by (apply N.mod_small; unfold two63, two64 in *; lia).
+  split; [|split].
+  - unfold ts_bounded, opid_ts, opid_next. cbn [era lam o_era o_lam]. rewrite E. split; [exact He|lia].
+  - apply opid_next_increasing. lia.
+  - apply IH; unfold opid_next; cbn [o_era o_lam]; [exact He|rewrite E; lia].
+Qed.
+
+Lemma tx_body_patches : forall ps d d' ops ents rs,
+  tx_body jt ucall unit jt u_validate d_local' d (map UPatch ps) = (d', ops, ents, rs) ->
+  Forall (fun r => exists x : unit, r = Done x) rs ->
+  run_patches (d_snap d) (combine ps (next_ids (d_oid d) (length ps))) = Some (d_snap d').
+Proof.
+  induction ps as [|p r IH]; intros d d' ops ents rs; cbn [map tx_body length next_ids combine run_patches].
+  - intros [= <- _ _ _] _. reflexivity.
+  - unfold local_step. destruct (u_validate (d_snap d) (UPatch p)) eqn:Hv.
+    + unfold d_local' at 1. destruct (u_local (d_snap d) (UPatch p) (opid_next (d_oid d))) as [[s1 o1]|] eqn:Hu.
+      * match goal with |- context [tx_body _ _ _ _ _ _ ?dd _] => set (d1 := dd) end.
+        destruct (tx_body jt ucall unit jt u_validate d_local' d1 (map UPatch r)) as [[[d2 ops2] ents2] rs2] eqn:Hb.
+        intros [= <- _ _ <-] Hf. inversion Hf as [|? ? _ Hf2]; subst. exact (IH d1 d2 ops2 ents2 rs2 Hb Hf2).
+      * match goal with |- context [tx_body _ _ _ _ _ _ ?dd _] => set (d1 := dd) end.
+        destruct (tx_body jt ucall unit jt u_validate d_local' d1 (map UPatch r)) as [[[d2 ops2] ents2] rs2] eqn:Hb.
+        intros [= _ _ _ <-] Hf. inversion Hf as [|? ? [x Hx] _]; subst. discriminate Hx.
+    + destruct (tx_body jt ucall unit jt u_validate d_local' d (map UPatch r)) as [[[d2 ops2] ents2] rs2] eqn:Hb.
+      intros [= _ _ _ <-] Hf. inversion Hf as [|? ? [x Hx] _]; subst. discriminate Hx.
+Qed.
+
+(* Patch(p1..pn) on a replica whose identifier counters have not wrapped: when every operation of the script is
+   accepted, the document reads what RFC 6902 (add / remove / replace, pointers per RFC 6901) gives on its value *)
+Theorem patch_transaction_refines d tag ps :
+  let '(d', rs) := d_tx d tag (map UPatch ps) false in
+  Inv' (opid_ts (d_oid d)) (d_snap d) ->
+  o_era (d_oid d) < two31 -> o_lam (d_oid d) + N.of_nat (S (length ps)) < two63 ->
+  Forall (fun p => canon (pt_val p)) ps ->
+  Forall (fun r => exists x : unit, r = Done x) rs ->
+  jview (d_snap d') = fold_left plain_patch ps (jview (d_snap d)).
+Proof.
+  unfold d_tx, transaction.
+  match goal with |- context [tx_body _ _ _ _ _ _ ?dd _] => set (d0 := dd) end.
+  destruct (tx_body jt ucall unit jt u_validate d_local' d0 (map UPatch ps)) as [[[d1 ops] ents] rs] eqn:Hb.
+  intros HI He Hl Hc Hf. cbn [d_snap].
+  pose proof (tx_body_patches ps d0 d1 ops ents rs Hb Hf) as Hr. cbn [d_snap d_oid d0] in Hr.
+  set (ti := opid_next (d_oid d)) in *.
+  assert (E1 : (o_lam (d_oid d) + 1) mod two64 = o_lam (d_oid d) + 1) by (apply N.mod_small; unfold two63, two64 in *; lia).
+  assert (Hbt : ts_bounded (opid_ts ti)).
+  { unfold ts_bounded, opid_ts, ti, opid_next. cbn [era lam o_era o_lam]. rewrite E1. split; [exact He|lia]. }
+  assert (Hb0 : ts_bounded (opid_ts (d_oid d))) by (unfold ts_bounded, opid_ts; cbn [era lam]; split; [exact He|lia]).
+  assert (HI1 : Inv' (opid_ts ti) (d_snap d)).
+  { destruct HI as [Hw [Ht [Hn Hu]]]. split; [exact Hw|]. split; [exact Ht|]. split; [exact Hn|].
+    eapply Forall_impl; [|exact Hu]. intros n Hn'. apply below_upton. apply (upton_below (opid_ts (d_oid d)) (opid_ts ti) n Hb0); [|exact Hn'].
+    apply opid_next_increasing. lia. }
+  assert (Hinc : increasing_ids (opid_ts ti) (map snd (combine ps (next_ids ti (length ps))))).
+  { assert (Em : map snd (combine ps (next_ids ti (length ps))) = next_ids ti (length ps)).
+    { generalize ti. clear. induction ps as [|p r IH]; intros i; cbn; [reflexivity|]. rewrite IH. reflexivity. }
+    rewrite Em. apply next_ids_increasing; unfold ti, opid_next; cbn [o_era o_lam]; [exact He|rewrite E1; lia]. }
+  assert (Hc' : Forall (fun pi : patch * opid => canon (pt_val (fst pi))) (combine ps (next_ids ti (length ps)))).
+  { apply Forall_forall. intros [p i] Hin. apply in_combine_l in Hin. rewrite Forall_forall in Hc. exact (Hc p Hin). }
+  destruct (patches_refine _ (opid_ts ti) _ _ Hbt HI1 Hinc Hc' Hr) as [V _]. rewrite V.
+  generalize (jview (d_snap d)). generalize ti. clear. induction ps as [|p r IH]; intros i v; cbn; [reflexivity|]. apply IH.
+Qed.
+
+Corollary patch_reaches_target d tag ps target :
+  let '(d', rs) := d_tx d tag (map UPatch ps) false in
+  Inv' (opid_ts (d_oid d)) (d_snap d) ->
+  o_era (d_oid d) < two31 -> o_lam (d_oid d) + N.of_nat (S (length ps)) < two63 ->
+  Forall (fun p => canon (pt_val p)) ps ->
+  Forall (fun r => exists x : unit, r = Done x) rs ->
+  fold_left plain_patch ps (jview (d_snap d)) = target ->
+  jview (d_snap d') = target.
+Proof.
+  pose proof (patch_transaction_refines d tag ps) as H. destruct (d_tx d tag (map UPatch ps) false) as [d' rs].
+  intros HI He Hl Hc Hf <-. exact (H HI He Hl Hc Hf).
 Qed.
